@@ -444,20 +444,24 @@ class bin_array(object):
     def build_cov_model(self, parent, name, exclude_bins : RangelistModel):
         ret = None
 
+        ranges = self.ranges
         if len(exclude_bins.range_l) > 0:
-            self.ranges.intersect(exclude_bins)
+            # The specification may be shared with another coverpoint
+            # that excludes other values: trim a copy
+            ranges = self.ranges.clone()
+            ranges.intersect(exclude_bins)
         
         # First, need to determine how many total bins
         # Construct a range model
         if self.nbins == -1:
             # unlimited number of bins
-            if len(self.ranges.range_l) == 1:
-                r = self.ranges.range_l[0]
+            if len(ranges.range_l) == 1:
+                r = ranges.range_l[0]
                 ret = CoverpointBinArrayModel(name, r[0], r[1])
             else:
                 idx=0
                 ret = CoverpointBinCollectionModel(name)
-                for r in self.ranges.range_l:
+                for r in ranges.range_l:
                     if r[0] != r[1]:
                         b = ret.add_bin(CoverpointBinArrayModel(name, r[0], r[1]))
                         b.srcinfo_decl = self.srcinfo_decl
@@ -473,7 +477,7 @@ class bin_array(object):
                                         str(self.srcinfo_decl.lineno) + ")")
         else:
             ret = CoverpointBinCollectionModel.mk_collection(name, 
-                    self.ranges, self.nbins)
+                    ranges, self.nbins)
         
         ret.srcinfo_decl = self.srcinfo_decl
 
